@@ -67,7 +67,21 @@ pub fn bfs(
     probe: Option<&ProbeFn>,
     max_states: u64,
 ) -> (BfsStats, Vec<Violation>) {
-    let mut seen: HashSet<Arc<VerifState>> = HashSet::new();
+    // The seen set keeps a 128-bit fingerprint of each canonical state (two independently keyed
+    // hashes), not the state: a layer of hundreds of thousands of states of several KiB each is
+    // what the memory went to. Equal fingerprints of different states are not a practical concern
+    // at 2^-128 per pair, and would only merge two states.
+    fn fingerprint(s: &VerifState) -> (u64, u64) {
+        use std::hash::{Hash, Hasher};
+        let mut a = std::collections::hash_map::DefaultHasher::new();
+        0x9e3779b97f4a7c15u64.hash(&mut a);
+        s.hash(&mut a);
+        let mut b = std::collections::hash_map::DefaultHasher::new();
+        s.hash(&mut b);
+        0xc2b2ae3d27d4eb4fu64.hash(&mut b);
+        (a.finish(), b.finish())
+    }
+    let mut seen: HashSet<(u64, u64)> = HashSet::new();
     let mut frontier: Vec<(Arc<Vec<Ev>>, Arc<VerifState>)> = vec![];
     let mut violations: Vec<Violation> = vec![];
     let mut stats = BfsStats {
@@ -90,7 +104,7 @@ pub fn bfs(
             machinery("replaying the same history twice gave different snapshots");
         }
         let a = Arc::new(a);
-        if seen.insert(a.clone()) {
+        if seen.insert(fingerprint(&a)) {
             if let Some(p) = probe {
                 violations.extend(p(r, &a));
             }
@@ -105,6 +119,7 @@ pub fn bfs(
             stats.frontier_emptied = true;
             break;
         }
+        let mut new_in_layer = 0u64;
         struct Out {
             hist: Vec<Ev>,
             snap: VerifState,
@@ -113,7 +128,12 @@ pub fn bfs(
             calls: u64,
             label: String,
         }
-        let outs: Vec<Out> = frontier
+        let mut next: Vec<(Arc<Vec<Ev>>, Arc<VerifState>)> = vec![];
+        let last_layer = depth + 1 == max_depth;
+        // the frontier is expanded in slices, so that the transitions in flight (each carries a
+        // whole state) stay bounded
+        for slice in frontier.chunks(2048) {
+        let outs: Vec<Out> = slice
             .par_iter()
             .flat_map_iter(|(hist, before)| {
                 let mut outs = vec![];
@@ -183,7 +203,6 @@ pub fn bfs(
             })
             .collect();
 
-        let mut next: Vec<(Arc<Vec<Ev>>, Arc<VerifState>)> = vec![];
         let mut new_states: Vec<(Arc<Vec<Ev>>, Arc<VerifState>)> = vec![];
         for o in outs {
             stats.transitions += 1;
@@ -198,11 +217,17 @@ pub fn bfs(
             if o.class.starts_with("panic:") {
                 continue;
             }
-            let snap = Arc::new(o.snap);
-            if seen.insert(snap.clone()) {
+            if seen.insert(fingerprint(&o.snap)) {
+                let snap = Arc::new(o.snap);
                 let h = Arc::new(o.hist);
-                new_states.push((h.clone(), snap.clone()));
-                next.push((h, snap));
+                if probe.is_some() {
+                    new_states.push((h.clone(), snap.clone()));
+                }
+                // states found by the last layer are counted and probed but never expanded
+                if !last_layer {
+                    next.push((h, snap));
+                }
+                new_in_layer += 1;
             }
         }
         if let Some(p) = probe {
@@ -212,9 +237,10 @@ pub fn bfs(
                 .collect();
             violations.extend(pv);
         }
+        }
         stats.layers_completed = depth + 1;
         stats.states = seen.len() as u64;
-        stats.states_per_layer.push(next.len() as u64);
+        stats.states_per_layer.push(new_in_layer);
         frontier = next;
         if stats.states > max_states {
             break;
